@@ -117,9 +117,9 @@ Definition get_data (C : cfg) (s : state) (slot file : N) : option hdl :=
 
 (* check_fd_flags: fcntl(F_SETFL, flags) when the stored flags differ; F_SETFL changes O_APPEND
    (and status flags that do not matter here), never the access mode *)
-Definition check_fd_flags (h : hdl) (flags : N) : hdl :=
+Definition check_fd_flags (wb : bool) (h : hdl) (flags : N) : hdl :=
   if hd_flags h =? flags then h
-  else mk_hdl (hd_file h) flags (hd_acc h) (has flags O_APPEND).
+  else mk_hdl (hd_file h) flags (hd_acc h) (has flags O_APPEND && negb wb).   (* get_writeback_open_flags applies here too *)
 
 Definition step (H : host) (C : cfg) (s : state) (r : req) : N * state :=
   match r with
@@ -138,7 +138,7 @@ Definition step (H : host) (C : cfg) (s : state) (r : req) : N * state :=
     match get_data C s slot file with
     | None => (EBADF, s)
     | Some h0 =>
-      let h := check_fd_flags h0 rflags in
+      let h := check_fd_flags (c_writeback C) h0 rflags in
       let s1 := if c_no_open C then s else set_slot s slot (Some h) in
       if hd_acc h =? 1 then (EBADF, s1) else (0, s1)        (* fd not open for reading *)
     end
@@ -146,7 +146,7 @@ Definition step (H : host) (C : cfg) (s : state) (r : req) : N * state :=
     match get_data C s slot file with
     | None => (EBADF, s)
     | Some h0 =>
-      let h := check_fd_flags h0 wflags in
+      let h := check_fd_flags (c_writeback C) h0 wflags in
       let s1 := if c_no_open C then s else set_slot s slot (Some h) in
       let chk := if c_seal C then seal_size_check true (sizes s file) off len 0 else 0 in
       if fx_append (c_fx C) && c_seal C && has wflags O_APPEND && negb (len =? 0) then (EPERM, s1)
